@@ -25,6 +25,11 @@ pub const TOKENS: &[&str] = &[
     "東京", "_x", "x1", "i32", "u8", "u64", "f64", "bool", "String", "char", "List", "Option", "Some", "None", "Result", "Ok", "Err",
     "Verdict", "Prefix", "IpAddr", "Asn", "print", "to_string", "len", "push", "get", "T", "A", "B", "\u{a0}", "\u{feff}", "\t", "\n",
     "\r\n", "😀", "\u{0301}", "\0",
+    // lexical and literal errors directly next to multi-byte characters: a location that is
+    // off by one byte ends inside a code point
+    "\"\\qé\"", "\"é\\q\"", "f\"\\qé\"", "f\"é\\q{x}é\"", "f\"{x}\\qé\"", "'\\qé'", "'é\\q'", "\"\\u{110000}é\"", "\"\\x4é\"", "\"\\u{é}\"",
+    "1u7é", "1é", "0xé", "1.5f33é", "1e5é", "AS1é", "1.1.1.é", "300u8é", "é300u8", "é\"", "é'", "'é", "\"é", "f\"é{", "f\"é{é", "f\"{é}é\"",
+    "é(", ")é", "é.é", "é:é", "é?", "!é", "é!", "#é", "@é", "$é", "&é", "|é", "é|", "é&", "\\é", "é\\",
 ];
 
 fn depth_ok(tok: &str, depth: &mut usize) -> bool {
@@ -166,6 +171,138 @@ fn import_soup(c: &mut Choices) -> String {
         let body = ["Some(x)", "None", "Option.Some(f())", "Some(g(x))", "match A(x) { A(v) => Some(v), B => None }", "Ok(x)?", "Some(h())"][c.below(7)];
         let _ = writeln!(s, "    {body}
 }}");
+    }
+    s
+}
+
+/// Append a multi-byte letter to every generated name (v1, x2, m3, f0, R1, E2, V0x1, K3, p0, ...)
+/// so that every location the compiler cites starts or ends next to a multi-byte character.
+fn unicodeify(src: &str) -> String {
+    let mut out = String::with_capacity(src.len() + 64);
+    let cs: Vec<char> = src.chars().collect();
+    let mut i = 0;
+    let mut in_str = false;
+    while i < cs.len() {
+        let ch = cs[i];
+        if ch == '"' {
+            in_str = !in_str;
+            out.push(ch);
+            i += 1;
+            continue;
+        }
+        if !in_str && (ch.is_ascii_alphabetic() || ch == '_') && (i == 0 || !(cs[i - 1].is_alphanumeric() || cs[i - 1] == '_')) {
+            let mut j = i;
+            while j < cs.len() && (cs[j].is_ascii_alphanumeric() || cs[j] == '_') {
+                j += 1;
+            }
+            let word: String = cs[i..j].iter().collect();
+            out.push_str(&word);
+            // generated names: one or two letters followed by digits (and an optional x<digits> part)
+            let letters = word.chars().take_while(|c| c.is_ascii_alphabetic()).count();
+            let rest: String = word.chars().skip(letters).collect();
+            let generated = (1..=2).contains(&letters)
+                && !rest.is_empty()
+                && rest.chars().all(|c| c.is_ascii_digit() || c == 'x')
+                && !matches!(word.as_str(), "i8" | "i16" | "i32" | "i64" | "u8" | "u16" | "u32" | "u64" | "f32" | "f64")
+                && !(j < cs.len() && cs[j] == '.' && word.chars().all(|c| c.is_ascii_digit()));
+            // not for literal suffixes (digits directly before the word)
+            let after_digit = i > 0 && cs[i - 1].is_ascii_digit();
+            if generated && !after_digit {
+                out.push('é');
+            }
+            i = j;
+            continue;
+        }
+        out.push(ch);
+        i += 1;
+    }
+    out
+}
+
+/// (vii) duplicate declarations and self-referential inference: shapes that are errors (or
+/// harmless) by the language rules and historically sit next to unwraps in the checker
+fn knots_and_duplicates(c: &mut Choices) -> String {
+    let mut s = String::new();
+    let n = 1 + c.below(4);
+    for k in 0..n {
+        match c.below(14) {
+            0 => {
+                let _ = writeln!(s, "enum Ed{k} {{ A, A }}");
+            }
+            1 => {
+                let _ = writeln!(s, "enum Ee{k} {{ A(i32), B, A(bool) }}");
+            }
+            2 => {
+                let _ = writeln!(s, "record Rd{k} {{ a: i32, a: i32 }}");
+            }
+            3 => {
+                let _ = writeln!(s, "record Rg{k}[T, T] {{ a: T }}");
+            }
+            4 => {
+                let _ = writeln!(s, "fn fd{k}(a: i32, a: i32) -> i32 {{ a }}");
+            }
+            5 => {
+                let _ = writeln!(s, "fn same() -> i32 {{ 1 }}\nfn same() -> i32 {{ 2 }}");
+            }
+            6 => {
+                let _ = writeln!(s, "const KD: i32 = 1;\nconst KD: i32 = 2;");
+            }
+            7 => {
+                let _ = writeln!(s, "record Same{k} {{ a: i32 }}\nenum Same{k} {{ A }}");
+            }
+            8 => {
+                let _ = writeln!(s, "fn Same{k}() -> i32 {{ 1 }}\nrecord Same{k} {{ a: i32 }}");
+            }
+            9 => {
+                let _ = writeln!(s, "test t{k} {{ accept }}\ntest t{k} {{ reject }}");
+            }
+            10 => {
+                let _ = writeln!(s, "enum Opt{k} {{ Some(i32), None }}\nfn fo{k}() -> Opt{k} {{ Opt{k}.None }}");
+            }
+            _ => {
+                // self-referential inference knots
+                let init = ["[]", "Option.None", "{ a: [] }", "[[]]", "{ a: Option.None }", "0"][c.below(6)];
+                let wrap = |c: &mut Choices, x: &str| -> String {
+                    match c.below(8) {
+                        0 => format!("{{ a: {x} }}"),
+                        1 => format!("[{x}]"),
+                        2 => format!("Option.Some({x})"),
+                        3 => format!("{{ a: [{x}] }}"),
+                        4 => format!("[{{ a: {x} }}]"),
+                        5 => format!("{{ a: {x}, b: {x} }}"),
+                        6 => format!("Result.Ok({x})"),
+                        _ => x.to_string(),
+                    }
+                };
+                let _ = writeln!(s, "fn fk{k}() {{");
+                let _ = writeln!(s, "    let x = {init};");
+                let m = 1 + c.below(3);
+                for _ in 0..m {
+                    let w = wrap(c, "x");
+                    match c.below(6) {
+                        0 => {
+                            let _ = writeln!(s, "    x.push({w});");
+                        }
+                        1 => {
+                            let _ = writeln!(s, "    x = {w};");
+                        }
+                        2 => {
+                            let _ = writeln!(s, "    x.a = {w};");
+                        }
+                        3 => {
+                            let _ = writeln!(s, "    let y = {w};\n    x = y;\n    y = x;");
+                        }
+                        4 => {
+                            let _ = writeln!(s, "    if x == {w} {{ }}");
+                        }
+                        _ => {
+                            let _ = writeln!(s, "    x.a.push({w});");
+                        }
+                    }
+                }
+                let _ = writeln!(s, "}}");
+            }
+        }
     }
     s
 }
@@ -358,13 +495,16 @@ impl W {
         let n_files = if c.chance(40) { 2 + c.below(2) } else { 1 };
         let mut files = Vec::new();
         for fi in 0..n_files {
-            let kind = c.below(15);
+            let kind = c.below(17);
+            let uni = c.chance(100);
             let text = if kind < 3 {
                 token_soup(&mut c)
             } else if kind == 12 || kind == 13 {
                 decl_graph(&mut c)
             } else if kind == 14 {
                 import_soup(&mut c)
+            } else if kind == 15 || kind == 16 {
+                knots_and_duplicates(&mut c)
             } else if kind == 7 || kind == 8 {
                 // (iii') a well-typed generated program with one type-breaking edit (C07's catalogue)
                 let s0 = case.get(1 + 2 * fi).unwrap_or(&empty);
@@ -388,6 +528,8 @@ impl W {
                 let s1 = case.get(2 + 2 * fi).unwrap_or(&empty);
                 mutated_program(&mut c, s0, s1)
             };
+            // generated names get a multi-byte tail in four cases out of ten
+            let text = if uni && kind >= 3 { unicodeify(&text) } else { text };
             let name = if fi == 0 { "pkg".to_string() } else { format!("m{fi}") };
             files.push((name, text));
         }
@@ -437,7 +579,7 @@ impl Prop for C06P {
         "C06"
     }
     fn rule(&self) -> String {
-        "source texts from six generators (random token sequences over the full token alphabet incl. non-ASCII, malformed and unterminated literals; valid generated programs with 1-3 token/character-level mutations; syntactically valid but mostly ill-typed programs; well-typed programs with one type-breaking edit; graphs of 1-5 record/enum declarations referring to themselves and each other directly and through options, lists, anonymous records, Result and type arguments with matching and mismatching arity; import statements with valid and invalid paths, groups, duplicates and clashes at top level and inside bodies), as single files and as 2-3 module trees, bracket nesting <= 64; oracle: FileTree::compile returns a package or a report, the report renders with and without colour, every cited location lies in its file on char boundaries; any panic/abort/stack overflow is a violation. Non-trivial: the input gets past the parser or is longer than 20 bytes; distinct by text".into()
+        "source texts from seven generators, four cases in ten with a multi-byte letter appended to every generated name so that cited locations border on multi-byte characters (random token sequences over the full token alphabet incl. non-ASCII, malformed and unterminated literals; valid generated programs with 1-3 token/character-level mutations; syntactically valid but mostly ill-typed programs; well-typed programs with one type-breaking edit; graphs of 1-5 record/enum declarations referring to themselves and each other directly and through options, lists, anonymous records, Result and type arguments with matching and mismatching arity; import statements with valid and invalid paths, groups, duplicates and clashes at top level and inside bodies; duplicate declarations of every kind and self-referential inference knots such as `let x = []; x.push({ a: x })`), as single files and as 2-3 module trees, bracket nesting <= 64; oracle: FileTree::compile returns a package or a report, the report renders with and without colour, every cited location lies in its file on char boundaries; any panic/abort/stack overflow is a violation. Non-trivial: the input gets past the parser or is longer than 20 bytes; distinct by text".into()
     }
     fn assumptions(&self) -> Vec<String> {
         vec![
